@@ -509,6 +509,32 @@ def show_doc(b):
     return repr(bytes(b))[1:]
 
 
+def show_val(v):
+    """readable rendering of a harness-encoded value (messages only)"""
+    t = v.get("t")
+    if t == "none":
+        return "None"
+    if t == "bool":
+        return str(v["v"])
+    if t == "int":
+        return str(v["v"])
+    if t == "big":
+        n = 0
+        for l in reversed(v["m"]):
+            n = (n << 15) | l
+        return str(-n if v["neg"] else n)
+    if t == "float":
+        frac = sum(l << (15 * k) for k, l in enumerate(v["m"]))
+        return repr(struct.unpack("<d", struct.pack("<Q", (v["s"] << 63) | (v["e"] << 52) | frac))[0])
+    if t in ("str", "bytes"):
+        return repr(bytes(v["v"]))[1:]
+    if t in ("list", "tuple"):
+        return ("[%s]" if t == "list" else "(%s)") % ", ".join(show_val(x) for x in v["v"])
+    if t == "dict":
+        return "{%s}" % ", ".join("%s: %s" % (show_val(k), show_val(x)) for k, x in v["v"])
+    return json.dumps(v)[:80]
+
+
 def run(ctx):
     rnd = random.Random(ctx.seed)
     cases = []
@@ -545,7 +571,7 @@ def run(ctx):
         sig = signature(c, r, bad[c["id"]])
         sig_count[sig] = sig_count.get(sig, 0) + 1
         if c["c"] == "dec":
-            what = "json.decode(%s) -> %s" % (show_doc(c["doc"]), json.dumps(r["res"].get("v"))[:120] if r["res"]["ok"] else "error: " + r["res"].get("err", ""))
+            what = "json.decode(%s) -> %s" % (show_doc(c["doc"]), show_val(r["res"]["v"])[:120] if r["res"]["ok"] else "error: " + r["res"].get("err", ""))
         else:
             what = "json.encode(%s) -> %s" % (c["src"], show_doc(r["enc"]["v"]["v"]) if r.get("enc") and r["enc"]["ok"] else "error")
             if r.get("back") is not None and not r["back"]["ok"]:
